@@ -307,7 +307,7 @@ pub fn c09(tier: &str) -> i32 {
             judge(cfg, &r).map(|(c, m)| (c, format!("{m} on long input #{i}"), json!({"kind":"bytes","config":cfg.to_json(),"script_hex":lexer::hex(&long_inputs[*i])})))
         })
         .chain(knob_cfgs.par_iter().filter(|c| c.min < 100_000).flat_map_iter(|cfg| {
-            (0..seeds).filter_map(move |s| {
+            (crate::report::sweep_base(seeds)..crate::report::sweep_base(seeds) + seeds).filter_map(move |s| {
                 let r = run_seed(cfg, s, false);
                 judge(cfg, &r).map(|(c, m)| (c, format!("{m} with seed {s}"), json!({"kind":"seed","config":cfg.to_json(),"seed":s})))
             })
